@@ -120,3 +120,81 @@ Proof.
       * cbn [length] in Hb. assert (s / 4 = (s - 4) / 4 + 1)%nat by (replace s with ((s - 4) + 1 * 4)%nat at 1 by lia; rewrite Nat.div_add by lia; reflexivity). lia.
     + rewrite app_nth2 by (cbn [unpack_byte length]; lia). f_equal. cbn [unpack_byte length]. lia.
 Qed.
+
+(* ---------------- individual-major layout ---------------- *)
+Lemma body_roundtrip n (rows pads : list (list Z)) :
+  length pads = length rows ->
+  Forall (fun r => length r = n /\ Forall code_ok r) rows ->
+  Forall (fun p => Forall code_ok p /\ (3 <= length p)%nat) pads ->
+  let body := concat (map (fun rp => pack_row (fst rp) (snd rp)) (combine rows pads)) in
+  length body = (length rows * bytes_per_variant n)%nat /\
+  map (unpack_row n) (split_rows (length rows) (bytes_per_variant n) body) = rows.
+Proof.
+  intros Hlen Hr Hp. cbv zeta.
+  set (packed := map (fun rp => pack_row (fst rp) (snd rp)) (combine rows pads)).
+  assert (P: Forall (fun r => length r = bytes_per_variant n) packed /\ map (unpack_row n) packed = rows /\ length packed = length rows).
+  { unfold packed. clear packed. revert pads Hlen Hp. induction Hr as [|r tl [Hn Hc] _ IH]; intros [|p pads] Hlen Hp; cbn [length] in Hlen; try lia.
+    - repeat split; constructor.
+    - inversion Hp as [|? ? [Hpc Hpl] Hpt]; subst. cbn [combine map fst snd].
+      destruct (unpack_pack_row r p Hc Hpc Hpl) as [U1 U2].
+      destruct (IH pads ltac:(lia) Hpt) as [I1 [I2 I3]].
+      split; [constructor; assumption|]. split; [rewrite U1, I2; reflexivity|cbn [length]; lia]. }
+  destruct P as [P1 [P2 P3]].
+  split.
+  - rewrite <- P3. clear -P1. induction P1 as [|r tl Hr _ IH]; [reflexivity|]. cbn [concat length]. rewrite app_length, IH, Hr. lia.
+  - rewrite <- P3 at 1. rewrite split_rows_concat by exact P1. exact P2.
+Qed.
+
+Lemma transpose_length k rows : length (transpose k rows) = k.
+Proof. unfold transpose. rewrite map_length, seq_length. reflexivity. Qed.
+
+Lemma transpose_rows k rows : Forall (fun r => Forall code_ok r) rows ->
+  Forall (fun r => length r = length rows /\ Forall code_ok r) (transpose k rows).
+Proof.
+  intros H. unfold transpose. apply Forall_forall. intros r Hin. apply in_map_iff in Hin. destruct Hin as [c [<- _]].
+  split; [apply map_length|]. apply Forall_forall. intros x Hx. apply in_map_iff in Hx. destruct Hx as [row [<- Hrow]].
+  rewrite Forall_forall in H. specialize (H row Hrow).
+  destruct (Nat.lt_ge_cases c (length row)) as [L|L].
+  - rewrite Forall_forall in H. apply H. apply nth_In. exact L.
+  - rewrite nth_overflow by exact L. unfold code_ok. lia.
+Qed.
+
+Lemma map_nth_seq {A} (l : list A) d : map (fun i => nth i l d) (seq 0 (length l)) = l.
+Proof.
+  apply (nth_ext _ _ d d).
+  - rewrite map_length, seq_length. reflexivity.
+  - intros i Hi. rewrite map_length, seq_length in Hi.
+    rewrite (nth_indep _ d (nth (length l) l d)) by (rewrite map_length, seq_length; exact Hi).
+    rewrite (map_nth (fun i => nth i l d)). rewrite seq_nth by exact Hi. reflexivity.
+Qed.
+
+Lemma transpose_involutive k rows : Forall (fun r => length r = k) rows ->
+  transpose (length rows) (transpose k rows) = rows.
+Proof.
+  intros H. unfold transpose at 1.
+  rewrite <- (map_nth_seq rows []) at 2.
+  apply map_ext_in. intros i Hi. apply in_seq in Hi.
+  unfold transpose. rewrite map_map.
+  assert (E: forall c, nth i (map (fun row : list Z => nth c row 0) rows) 0 = nth c (nth i rows []) 0).
+  { intros c. rewrite (nth_indep _ 0 ((fun row : list Z => nth c row 0) [])) by (rewrite map_length; lia).
+    rewrite (map_nth (fun row : list Z => nth c row 0)). reflexivity. }
+  rewrite (map_ext _ (fun c => nth c (nth i rows []) 0)) by exact E.
+  assert (Lk: length (nth i rows []) = k).
+  { rewrite Forall_forall in H. apply H. apply nth_In. lia. }
+  rewrite <- Lk. apply map_nth_seq.
+Qed.
+
+Lemma decode_encode_sample_major_lemma n (rows pads : list (list Z)) :
+  length pads = n ->
+  Forall (fun r => length r = n /\ Forall code_ok r) rows ->
+  Forall (fun p => Forall code_ok p /\ (3 <= length p)%nat) pads ->
+  decode_bed_any (encode_bed_sample_major rows n pads) n (length rows) = Some rows.
+Proof.
+  intros Hlen Hr Hp. unfold decode_bed_any, encode_bed_sample_major. cbn [app Z.eqb Pos.eqb andb].
+  assert (Hc: Forall (fun r => Forall code_ok r) rows) by (eapply Forall_impl; [|exact Hr]; intros r [_ Hc]; exact Hc).
+  assert (Hk: Forall (fun r => length r = n) rows) by (eapply Forall_impl; [|exact Hr]; intros r [Hl _]; exact Hl).
+  pose proof (body_roundtrip (length rows) (transpose n rows) pads) as B.
+  rewrite transpose_length in B. specialize (B Hlen (transpose_rows n rows Hc) Hp). cbv zeta in B.
+  destruct B as [B1 B2]. rewrite B1, Nat.eqb_refl. rewrite B2.
+  rewrite transpose_involutive by exact Hk. reflexivity.
+Qed.
